@@ -30,6 +30,9 @@ pub enum DelegateSpec {
   /// index of an earlier inscription of the case
   Existing(u16),
   Missing,
+  /// an earlier inscription that the case hides, if there is one (else any
+  /// earlier one)
+  Hidden(u16),
 }
 
 #[derive(Clone, Debug, Serialize, Deserialize)]
@@ -186,6 +189,21 @@ fn c19_check(case: &ContentCase, cx: &Cx) -> CheckResult {
           None
         } else {
           Some(built[pick_index(*i, built.len())].id)
+        }
+      }
+      DelegateSpec::Hidden(i) => {
+        let hidden_earlier: Vec<usize> = case
+          .hidden
+          .iter()
+          .map(|h| pick_index(*h, n))
+          .filter(|h| *h < built.len())
+          .collect();
+        if built.is_empty() {
+          None
+        } else if hidden_earlier.is_empty() {
+          Some(built[pick_index(*i, built.len())].id)
+        } else {
+          Some(built[hidden_earlier[pick_index(*i, hidden_earlier.len())]].id)
         }
       }
       DelegateSpec::Missing => Some(InscriptionId {
@@ -352,7 +370,10 @@ fn c19_check(case: &ContentCase, cx: &Cx) -> CheckResult {
             format!("GET {path} (accept-encoding {accept:?}) -> {} instead of the content", response.status),
           ));
         }
-        if response.header("content-type").as_deref() != Some(content_type.as_str()) {
+        // optional whitespace around a field value is not part of it (RFC 9110
+        // 5.5): a stored type of " " arrives as the empty value
+        let ows = |s: &str| s.trim_matches(|c| c == ' ' || c == '\t').to_string();
+        if response.header("content-type").map(|h| ows(&h)) != Some(ows(content_type.as_str())) {
           return Err(Fail::new(
             "c19|content-type",
             format!("GET {path}: content-type {:?}, stored type gives `{content_type}`", response.header("content-type")),
@@ -417,6 +438,16 @@ fn c19_check(case: &ContentCase, cx: &Cx) -> CheckResult {
           && is_hidden(&t.id)
         {
           forbidden.push(t);
+          let iframe = t
+            .content_type
+            .as_ref()
+            .is_some_and(|c| c.starts_with(b"text/html") || c.starts_with(b"image/svg+xml"));
+          if !is_hidden(&b.id) {
+            cx.label("delegate-to-hidden");
+            if iframe && route == "preview" && t.plain.is_some() {
+              cx.label("preview-of-delegate-to-hidden-iframe");
+            }
+          }
         }
         let decoded = response.decoded_body();
         for f in &forbidden {
@@ -568,7 +599,9 @@ enum Expected {
 fn case_strategy(max: usize) -> BoxedStrategy<ContentCase> {
   let content_type = prop_oneof![
     3 => Just(b"text/plain;charset=utf-8".to_vec()),
-    2 => Just(b"text/html".to_vec()),
+    3 => Just(b"text/html".to_vec()),
+    1 => Just(b"text/html;charset=utf-8".to_vec()),
+    2 => Just(b"image/svg+xml".to_vec()),
     2 => Just(b"image/png".to_vec()),
     1 => Just(b"application/json".to_vec()),
     1 => Just(b"audio/mpeg".to_vec()),
@@ -588,7 +621,7 @@ fn case_strategy(max: usize) -> BoxedStrategy<ContentCase> {
     proptest::option::weighted(0.85, content_type),
     prop_oneof![5 => Just(Encoding::None), 3 => Just(Encoding::Brotli), 1 => Just(Encoding::Gzip), 1 => Just(Encoding::Junk)],
     proptest::option::weighted(0.9, body),
-    proptest::option::weighted(0.3, prop_oneof![5 => any::<u16>().prop_map(DelegateSpec::Existing), 1 => Just(DelegateSpec::Missing)]),
+    proptest::option::weighted(0.35, prop_oneof![4 => any::<u16>().prop_map(DelegateSpec::Existing), 1 => Just(DelegateSpec::Missing), 3 => any::<u16>().prop_map(DelegateSpec::Hidden)]),
     proptest::option::weighted(0.25, any::<u16>()),
   )
     .prop_map(|(content_type, encoding, body, delegate, reinscribe)| InscSpec {
@@ -629,6 +662,6 @@ pub fn c19(s: &mut Session) -> Meta {
     level: "exploration",
     rule: "Per case 1..6 hand-built inscriptions (content-type bytes: common media types, invalid header bytes, header injection, non-ASCII, empty, random printable; content encoding none / br with a real brotli body / gzip / unknown; bodies empty, binary, HTML, long; delegates to an earlier inscription of the case (which may itself delegate or be hidden) or to a missing id; reinscriptions on the same sat) are mined and served by an in-process `ord server` (--no-sync) with/without --csp-origin, --decompress, 0..2 hidden ids, sat and transaction index. Requests: /content, /r/undelegated-content and /preview for every inscription under six Accept-Encoding values, /r/sat/<n>/at/<0,-1,1,-2>/content, and ordinary and error pages. Oracle per response: body == own body or the delegate's (one level) after undoing transport compression; Content-Type == stored type if a valid header value else application/octet-stream; stored encoding passed through iff listed in Accept-Encoding, decompressed iff --decompress and br, else 406; a Content-Security-Policy header on every response, and on content routes only sources of the documented sandbox; no response contains the marker or stored bytes of a hidden inscription, directly or through a delegator; immutable caching only for non-negative sat indices. Non-trivial = case with a delegate, a hidden inscription and a refused encoding; distinct by case.",
     assumptions: &["Accept-Encoding acceptance is ord's exact-token rule; `*` is not generated", "transport compression by the server's compression layer is undone before comparing bodies"],
-    required_labels: &["delegate", "hidden", "not-acceptable-encoding", "decompress", "csp-origin", "invalid-content-type-bytes", "negative-sat-index"],
+    required_labels: &["delegate", "hidden", "delegate-to-hidden", "preview-of-delegate-to-hidden-iframe", "not-acceptable-encoding", "decompress", "csp-origin", "invalid-content-type-bytes", "negative-sat-index"],
   }
 }
